@@ -90,11 +90,58 @@ type Mu struct {
 // the executions of one search: key = (happens-before fingerprint, running
 // thread), value = fewest preemptions used when reaching it.
 type Visited struct {
-	M      map[[3]uint64]int
+	tab    []vent // open addressing; slices only (map accesses carry race-detector hooks even in norace code)
+	n      int
 	Pruned int64
 }
 
-func NewVisited() *Visited { return &Visited{M: map[[3]uint64]int{}} }
+type vent struct {
+	k    [3]uint64
+	used int32
+	full bool
+}
+
+func NewVisited() *Visited { return &Visited{tab: make([]vent, 1<<12)} }
+
+//go:norace
+func (v *Visited) Len() int { return v.n }
+
+//go:norace
+func (v *Visited) slot(k [3]uint64) int {
+	m := len(v.tab) - 1
+	i := int(mix(k[0]^k[1]*31^k[2])) & m
+	for v.tab[i].full && v.tab[i].k != k {
+		i = (i + 1) & m
+	}
+	return i
+}
+
+// visit reports whether the state was already expanded with at most `used`
+// deviations; otherwise it records it.
+//
+//go:norace
+func (v *Visited) visit(k [3]uint64, used int) bool {
+	i := v.slot(k)
+	if v.tab[i].full {
+		if int(v.tab[i].used) <= used {
+			return true
+		}
+		v.tab[i].used = int32(used)
+		return false
+	}
+	v.tab[i] = vent{k: k, used: int32(used), full: true}
+	v.n++
+	if v.n*2 > len(v.tab) {
+		old := v.tab
+		v.tab = make([]vent, len(old)*2)
+		for _, e := range old {
+			if e.full {
+				v.tab[v.slot(e.k)] = e
+			}
+		}
+	}
+	return false
+}
 
 type Config struct {
 	Prefix     []int
@@ -130,12 +177,12 @@ type Sched struct {
 	nmu       int
 	LockObs   func(tid int, kind int, addr uint64)
 	live      int32
-	finished  handoff // signalled when the last goroutine is gone
+	finished  chan struct{} // closed when the last goroutine is gone (a real channel: the caller of Run is not a thread of the execution)
 	fp        [2]uint64 // fingerprint of the happens-before trace so far
 	used      int       // preemptions used so far
 	diskW     []uint32  // clock of the last disk write/barrier
-	addrW     map[uint64][]uint32
-	addrR     map[uint64][]uint32
+	addrW     [][]uint32 // indexed by disk address
+	addrR     [][]uint32
 }
 
 // S is the scheduler of the execution in progress (nil: free-running mode,
@@ -210,10 +257,10 @@ func Run(cfg Config, body func()) Result {
 	S = s
 	t := s.newThread("main", ClClient)
 	s.cur = t
-	s.finished.init()
+	s.finished = make(chan struct{})
 	s.spawn(t, body)
 	t.hand.wake(1)
-	s.finished.park()
+	<-s.finished
 	S = nil
 	var mc int64
 	for _, u := range s.threads {
@@ -274,7 +321,7 @@ func threadExit(s *Sched, t *Thread) {
 		}
 	}
 	if atomic.AddInt32(&s.live, -1) == 0 {
-		s.finished.wake(1)
+		close(s.finished)
 	}
 }
 
@@ -286,8 +333,10 @@ func (s *Sched) kill() {
 		return
 	}
 	s.dead = true
-	for _, t := range s.threads {
-		s.res.Threads = append(s.res.Threads, t.describe())
+	if s.res.Verdict != VOK {
+		for _, t := range s.threads {
+			s.res.Threads = append(s.res.Threads, t.describe())
+		}
 	}
 	for _, t := range s.threads {
 		if t != s.cur && !t.done {
@@ -467,13 +516,12 @@ func (s *Sched) choice(n int, data bool, costs []uint8) int {
 	i := len(s.points)
 	if v := s.cfg.Visited; v != nil && i >= len(s.cfg.Prefix) && !data {
 		key := [3]uint64{s.fp[0], s.fp[1], uint64(s.cur.ID)}
-		if u, ok := v.M[key]; ok && u <= s.used {
+		if v.visit(key, s.used) {
 			v.Pruned++
 			s.res.Pruned = true
 			s.kill()
 			return -1
 		}
-		v.M[key] = s.used
 	}
 	if i < len(s.cfg.Prefix) {
 		c = s.cfg.Prefix[i]
@@ -666,9 +714,9 @@ func DiskEvent(write bool, barrier bool, addr uint64) {
 		return
 	}
 	t := s.cur
-	if s.addrW == nil {
-		s.addrW = map[uint64][]uint32{}
-		s.addrR = map[uint64][]uint32{}
+	for uint64(len(s.addrW)) <= addr {
+		s.addrW = append(s.addrW, nil)
+		s.addrR = append(s.addrR, nil)
 	}
 	if write || barrier {
 		join(&t.vc, s.diskW)
@@ -684,7 +732,7 @@ func DiskEvent(write bool, barrier bool, addr uint64) {
 		s.diskW = cloneVC(t.vc)
 		if write {
 			s.addrW[addr] = s.diskW
-			delete(s.addrR, addr)
+			s.addrR[addr] = nil
 		}
 		return
 	}
